@@ -62,7 +62,8 @@ def units(w):
                     (new[k] is sym[k]) or (val_id(new[k], V) is not None and val_id(sym[k], V) is not None
                                            and z3.is_true(z3.simplify(val_id(new[k], V) == val_id(sym[k], V)))) for k in pub if k in new))
             else:
-                want = {alias: k for k, alias in (sc.symbols or {}).items() if k in pub}
+                pairs_ = list(sc.symbols.items()) if isinstance(sc.symbols, dict) else list(sc.symbols or [])
+                want = {alias: k for k, alias in pairs_ if k in pub}
                 it.check("post:exactly-the-listed-public-symbols-under-their-aliases", sorted(new.keys()) == sorted(want.keys()))
                 it.check("post:bound-to-the-module's-own-values", all(
                     val_id(new[a], V) is not None and z3.is_true(z3.simplify(val_id(new[a], V) == val_id(sym[k], V))) for a, k in want.items() if a in new))
@@ -99,6 +100,9 @@ def units(w):
             U.append(req_unit(Scenario(cached=cached, source=source, form="unqualified")))
             U.append(req_unit(Scenario(cached=cached, source=source, form="import", symbols={"pub1": "p", "_priv": "leak", "nosuch": "n"})))
             U.append(req_unit(Scenario(cached=cached, source=source, form="import", symbols={"pub2": "pub2", "pub1": "one"})))
+            # a symbol listed twice under two aliases; an empty list
+            U.append(req_unit(Scenario(cached=cached, source=source, form="import", symbols=[("pub1", "first"), ("pub2", "two"), ("pub1", "second")])))
+            U.append(req_unit(Scenario(cached=cached, source=source, form="import", symbols=[])))
     U.append(req_unit(Scenario(cached=False, source="userdir", form="plain", spec="dir/Mod.ckl")))
 
     # hosts store the module path where module code can see it (the base frame)
@@ -222,17 +226,24 @@ def bounded(tier, seed):
                               "observed": str(sorted(added)), "expected": "public symbols of " + target})
         finally:
             shutil.rmtree(d, ignore_errors=True)
-    # parser: the three statement forms
-    for src, exp in [("require M", ("M", None, False, None)), ("require M as N", ("M", "N", False, None)), ("require M unqualified", ("M", None, True, None)),
-                     ("require M import [a, b as c]", ("M", None, False, {"a": "a", "b": "c"})), ("require 'x/y.ckl' as Z", ("'x/y.ckl'", "Z", False, None))]:
+    # the statement forms, by what they add to the importer's scope (a bundled module, fresh interpreter each)
+    ref = interp.Interpreter(True, False)
+    ref.interpret("require Math", "-")
+    public = set(ref.environment.map["Math"].value.keys())
+    for src, exp in [("require Math", {"Math"}), ("require Math as M2", {"M2"}), ("require Math import [PI, E as e]", {"PI", "e"}),
+                     ("require Math import [PI as a, PI as b]", {"a", "b"}), ("require Math import []", set()),
+                     ("require Math import [nosuch, PI as p]", {"p"}), ("require Math import [PI as x, E as x]", {"x"}),
+                     ("require 'Math.ckl' as Z", {"Z"}), ("require Math unqualified", public)]:
         ev += 1
+        J = interp.Interpreter(True, False)
+        before = set(J.environment.map.keys())
         try:
-            nd = parser.parse_script(src, "-")
-            got = (str(nd.modulespec), nd.name, bool(nd.unqualified), dict(nd.symbols) if nd.symbols else None)
+            J.interpret(src, "-")
+            got = set(J.environment.map.keys()) - before
         except Exception as e:
             got = repr(e)
         if got != exp:
-            fails.append({"id": "bounded:require-statement-forms", "input": src, "observed": str(got), "expected": str(exp)})
+            fails.append({"id": "bounded:require-statement-forms", "input": src, "observed": str(sorted(got) if isinstance(got, set) else got)[:300], "expected": str(sorted(exp))[:300]})
     seen, uniq = set(), []
     for f in fails:
         if f["id"] not in seen:
